@@ -23,5 +23,7 @@ def check(ctx, rep):
     _eff6.eff_6(ctx, rep)        # no memo hands one mutable result to several callers
     from ..rules import tok as _tok12
     _tok12.tok_12(ctx, rep)     # what a scan step emits and where the scan continues agree
+    from ..rules import rxr as _rx13
+    _rx13.rx_13(ctx, rep)       # the lexical patterns are blind to the spelling of line breaks
     rep.note('Not decided: that the regexes and the `pos` arithmetic slice each line correctly (value reasoning), '
              'i.e. the full equality get_code() == input.')
